@@ -48,8 +48,10 @@ fn any_parts() -> SanParts {
         promo_eq: kani::any(),
         suffix: kani::any(),
     };
-    kani::assume(s.piece <= 6 && s.ofile <= 8 && s.orank <= 8 && s.dfile < 8 && s.drank < 8);
+    kani::assume(s.piece <= 6 && s.piece != 1 && s.ofile <= 8 && s.orank <= 8 && s.dfile < 8 && s.drank < 8);
     kani::assume(s.promo == 0 || (s.promo >= 2 && s.promo <= 5));
+    // spellings a SAN writer produces: no explicit 'P'; a promotion suffix only on a pawn move to rank 1 or 8
+    kani::assume(s.promo == 0 || (s.piece == 0 && (s.drank == 0 || s.drank == 7)));
     kani::assume(s.suffix <= 2);
     s
 }
@@ -124,7 +126,7 @@ proof! {
         assert!(q.promotion.map(kind_no) == if s.promo != 0 { Some(s.promo) } else { None }, "promotion piece as written");
         assert!(q.is_capture == if s.capture { Some(true) } else { None }, "capture mark");
         assert!(q.castle.is_none(), "not a castling query");
-        kani::cover!(n == 9, "longest spelling");
+        kani::cover!(n == 8, "longest spelling");
         kani::cover!(s.piece == 3 && s.ofile == 1 && s.dfile == 1, "bishop letter next to b-file letters");
         kani::cover!(s.promo == 3 && !s.promo_eq && s.suffix == 2, "promotion to bishop without '=' and with '#'");
     }
@@ -182,9 +184,13 @@ proof! {
             && (s.orank == 8 || s.orank == from / 8)
             && s.dfile == to % 8
             && s.drank == to / 8
-            && (s.promo == 0 || s.promo == if promo != 0 { promo } else { kind })
+            && (s.promo == 0 || s.promo == promo)
             && (!s.capture || cap != 0);
-        assert!(q.test(&mv) == agree, "a SAN query matches a move iff piece, written origin parts, destination, promotion and capture mark agree");
+        // a promotion suffix next to a move that is not a promotion is outside SAN (the matcher's leniency there is
+        // not constrained)
+        if s.promo == 0 || promo != 0 {
+            assert!(q.test(&mv) == agree, "a SAN query matches a move iff piece, written origin parts, destination, promotion and capture mark agree");
+        }
         kani::cover!(agree && cap != 0 && !s.capture, "capture matched without the optional 'x'");
         kani::cover!(!agree && kind == want_piece && s.dfile == to % 8 && s.drank == to / 8, "same piece and destination, told apart by origin/promotion/capture");
         kani::cover!(agree && promo == 2, "knight promotion matched");
